@@ -991,12 +991,11 @@ class Unit:
 
     def alias(self, name: Optional[str] = None, symbol: Optional[str] = None) -> None:
         """Adds an alternative name and/or symbol to the unit"""
+        # validate everything before registering anything, so that a failed call
+        # leaves the registries untouched
         if name:
             if name in self._by_name and self._by_name[name] is not self:
                 raise ValueError(f"A unit named {name} is already defined")
-
-            self.names = self.names + (name,)
-            self._by_name[name] = self
 
         if symbol:
             if symbol in self._by_symbol and self._by_symbol[symbol] is not self:
@@ -1005,6 +1004,11 @@ class Unit:
             if symbol and " " in symbol:
                 raise ValueError(f"{symbol!r} will not be parsable if it has spaces.")
 
+        if name:
+            self.names = self.names + (name,)
+            self._by_name[name] = self
+
+        if symbol:
             self.symbols = self.symbols + (symbol,)
             self._by_symbol[symbol] = self
 
